@@ -232,6 +232,25 @@ func sizeScenarios(p *pg.Program, scs []genrt.Scenario, maxK2 int) []genrt.Scena
 					continue // fixed concurrency in the program text: too large to explore, dropped
 				}
 			} else {
+				// too large for all interleavings with several workers: one worker over all interleavings,
+				// and the same scenario with its own N over every schedule with at most one preemption
+				// (only for scenarios in which nothing fails: that is where a missing edge or a lost value shows)
+				quiet := true
+				for _, d := range sc.Dec {
+					if d != probe.True && d != probe.False {
+						quiet = false
+					}
+				}
+				if quiet && sc.Cancel == "" && sc.Instances <= 1 {
+					b := sc
+					b.PreemptBound = 2
+					b.MaxExecs = 12000
+					b.Note = "supplement"
+					if key := b.String(); !seen[key] {
+						seen[key] = true
+						out = append(out, b)
+					}
+				}
 				sc.N = 1
 			}
 		}
@@ -287,6 +306,40 @@ func predCombos(p *pg.Program, sc genrt.Scenario) []genrt.Scenario {
 		res = next
 	}
 	return res
+}
+
+// withAlone appends, for every flow of ps that has a predicate (up to max of them), a copy that is the only
+// file with directives in its package: the generator numbers tasks per package and predicates per flow, so
+// the two number spaces only meet in the first flows of a package.
+func withAlone(ps []*pg.Program, max int) []*pg.Program {
+	out := ps
+	seen := map[string]bool{}
+	n := 0
+	for _, p := range ps {
+		if p.Flow == nil || n >= max {
+			continue
+		}
+		has := false
+		for _, t := range p.Flow.Tasks {
+			if t.Pred != nil {
+				has = true
+			}
+		}
+		// one copy per structure (listing orders of the same flow share it)
+		q := *p
+		q.Flow = p.Flow.Clone()
+		q.Flow.Order = nil
+		k := q.Key()
+		if !has || seen[k] {
+			continue
+		}
+		seen[k] = true
+		q.Alone = true
+		q.Fam = p.Fam + ":alone"
+		out = append(out, &q)
+		n++
+	}
+	return out
 }
 
 func numIDs(progs []*pg.Program) []*pg.Program {
@@ -413,7 +466,7 @@ func planFor(prop, tier string) (*plan, error) {
 				ps = append(ps, parProg(q, "PAR-end"))
 			}
 		}
-		pl.progs = numIDs(ps)
+		pl.progs = numIDs(withAlone(ps, 24))
 		pl.scen = func(p *pg.Program) []genrt.Scenario {
 			var out []genrt.Scenario
 			out = append(out, predCombos(p, base(p, 2))...)
@@ -926,7 +979,7 @@ func planFor(prop, tier string) (*plan, error) {
 			f.Conc = ""
 			ps = append(ps, flowProg(f, "default-conc:fork"))
 		}
-		pl.progs = numIDs(ps)
+		pl.progs = numIDs(withAlone(ps, 24))
 		pl.scen = func(p *pg.Program) []genrt.Scenario {
 			var out []genrt.Scenario
 			if strings.HasPrefix(p.Fam, "PF:") {
@@ -1037,7 +1090,7 @@ func planFor(prop, tier string) (*plan, error) {
 				}
 			}
 		}
-		pl.progs = numIDs(ps)
+		pl.progs = numIDs(withAlone(ps, 24))
 		pl.scen = func(p *pg.Program) []genrt.Scenario {
 			var out []genrt.Scenario
 			ids := panickable(p)
@@ -1373,7 +1426,7 @@ func planFor(prop, tier string) (*plan, error) {
 				}
 			}
 		}
-		pl.progs = numIDs(ps)
+		pl.progs = numIDs(withAlone(ps, 24))
 		pl.scen = func(p *pg.Program) []genrt.Scenario {
 			var out []genrt.Scenario
 			// predicate outcomes {true,false,panic} x task outcomes {ok,err,panic} on marked tasks
